@@ -15,7 +15,6 @@
 package sorted_set
 
 import (
-	"cmp"
 	"errors"
 	"fmt"
 	"github.com/echovault/sugardb/internal"
@@ -782,9 +781,9 @@ func handleZRANK(params internal.HandlerFuncParams) ([]byte, error) {
 	members := set.GetAll()
 	slices.SortFunc(members, func(a, b MemberParam) int {
 		if strings.EqualFold(params.Command[0], "zrevrank") {
-			return cmp.Compare(b.Score, a.Score)
+			return compareMembers(b, a)
 		}
-		return cmp.Compare(a.Score, b.Score)
+		return compareMembers(a, b)
 	})
 
 	for i := 0; i < len(members); i++ {
@@ -936,9 +935,7 @@ func handleZREMRANGEBYRANK(params internal.HandlerFuncParams) ([]byte, error) {
 	}
 
 	members := set.GetAll()
-	slices.SortFunc(members, func(a, b MemberParam) int {
-		return cmp.Compare(a.Score, b.Score)
-	})
+	slices.SortFunc(members, compareMembers)
 
 	deletedCount := 0
 
@@ -1084,9 +1081,9 @@ func handleZRANGE(params internal.HandlerFuncParams) ([]byte, error) {
 		slices.SortFunc(members, func(a, b MemberParam) int {
 			// Do a score sort
 			if reverse {
-				return cmp.Compare(b.Score, a.Score)
+				return compareMembers(b, a)
 			}
-			return cmp.Compare(a.Score, b.Score)
+			return compareMembers(a, b)
 		})
 	}
 	if strings.EqualFold(policy, "bylex") {
@@ -1217,9 +1214,9 @@ func handleZRANGESTORE(params internal.HandlerFuncParams) ([]byte, error) {
 		slices.SortFunc(members, func(a, b MemberParam) int {
 			// Do a score sort
 			if reverse {
-				return cmp.Compare(b.Score, a.Score)
+				return compareMembers(b, a)
 			}
-			return cmp.Compare(a.Score, b.Score)
+			return compareMembers(a, b)
 		})
 	}
 	if strings.EqualFold(policy, "bylex") {
